@@ -261,7 +261,11 @@ def run_shard(prop_id, sub, tier, seed, shard, n_examples):
     timeout = sub.case_timeout[0 if tier == "quick" else 1]
     import signal
 
+    # the watchdog counts the CPU time of this process (ITIMER_PROF), so a machine that runs many checks at once does not turn a slow
+    # case into a "hang"; a case that blocks without using CPU (a worker process that never answers) is caught by a wall-clock alarm
+    # three times as long
     signal.signal(signal.SIGALRM, _alarm_handler)
+    signal.signal(signal.SIGPROF, _alarm_handler)
     hangs = 0
     strategy = sub.strategy(tier)
     remaining = n_examples
@@ -287,11 +291,19 @@ def run_shard(prop_id, sub, tier, seed, shard, n_examples):
                 ctx._in_hyp = True
                 try:
                     state["current"] = case
-                    signal.alarm(timeout)
+                    signal.setitimer(signal.ITIMER_PROF, timeout)
+                    signal.alarm(3 * timeout)
+                    c0, w0 = time.process_time(), time.time()
                     try:
                         sub.body(case, ctx)
                     finally:
+                        signal.setitimer(signal.ITIMER_PROF, 0)
                         signal.alarm(0)
+                        # how close the slowest case came to the watchdog (reported with the other margins in the evidence)
+                        ctx.worst["watchdog: cpu seconds of the slowest case / limit"] = max(
+                            ctx.worst.get("watchdog: cpu seconds of the slowest case / limit", 0.0), (time.process_time() - c0) / timeout)
+                        ctx.worst["watchdog: wall seconds of the slowest case / limit"] = max(
+                            ctx.worst.get("watchdog: wall seconds of the slowest case / limit", 0.0), (time.time() - w0) / (3 * timeout))
                 except (Violation, Inconclusive):
                     raise
                 except Exception as e:
@@ -349,7 +361,7 @@ def run_shard(prop_id, sub, tier, seed, shard, n_examples):
             if key in known:
                 known_hits.setdefault(key, {"count": 0, "case": json.loads(canon(state.get("current"))), "detail": "watchdog"})["count"] += 1
             else:
-                found.append({"key": key, "detail": f"no return after {timeout} s (a case of this sub-check normally takes well under a second); innermost library frame {h.where}",
+                found.append({"key": key, "detail": f"no return after {timeout} s of CPU time (a case of this sub-check normally takes well under a second); innermost library frame {h.where}",
                               "case": json.loads(canon(state.get("current")))})
             excluded.add(key)
             remaining = remaining - state["gen"]
